@@ -31,6 +31,7 @@ SOURCES = {
     'fail-after-eeprom': '.eseg\n.db 1\n.cseg\n bogus\n',
     'include': '.include "part.inc"\n ldi r16, PART\n',
     'include-missing': '.include "nosuch.inc"\n nop\n',
+    'std-include': '.include "c18_std.inc"\n ldi r16, STDVAL\n',      # found only in the user's standard include directory, which the tool passes
     'messages': '.message "hello"\n nop\n.warning "careful"\n',
     'big': ' nop\n' * 2000 + '.eseg\n.db ' + ', '.join(['5'] * 300) + '\n',
     'huge': ' nop\n' * 40000 + '.eseg\n.db ' + ', '.join(['5'] * 300) + '\n',      # > 64 KiB of flash: not given to the (quadratic) model
@@ -77,21 +78,32 @@ def run(tier, seed, model_ok):
             work = os.path.join(d, 'work'); home = os.path.join(d, 'home')
             for sub in ('sub/deep', 'build', 'adir'): os.makedirs(os.path.join(work, sub))
             os.makedirs(home)
+            stdinc = os.path.join(home, '.config', 'avra-rs', 'includes'); os.makedirs(stdinc)
+            open(os.path.join(stdinc, 'c18_std.inc'), 'w').write('.equ STDVAL = 77\n')
+            os.makedirs(os.path.join(d, 'elsewhere', 'build')); os.makedirs(os.path.join(d, 'elsewhere', 'adir'))
+            # where the tool is started and how the source is named: next to it with a relative name (usual), or from
+            # another directory with an absolute name — the default outputs stay next to the SOURCE, -o/-e follow the start directory
+            away = rng.random() < .3
+            cwd = os.path.join(d, 'elsewhere') if away else work
             srcp = os.path.join(work, name)
             open(srcp, 'w').write(SOURCES[sk])
             open(os.path.join(os.path.dirname(srcp), 'part.inc'), 'w').write('.equ PART = 42\n')
             verbose = rng.random() < .4
             if e == 'same-as-o': e = o
             # documented target paths
-            p1 = os.path.normpath(os.path.join(work, o)) if o else os.path.join(os.path.dirname(srcp), stem(name) + '.hex')
-            p2 = os.path.normpath(os.path.join(work, e)) if e else os.path.join(os.path.dirname(srcp), stem(name) + '.eep.hex')
+            if away and (o or '').startswith('sub/') : o = 'build/fw2.hex'
+            if away and (e or '').startswith('sub/') : e = 'build/fw2.eep'
+            p1 = os.path.normpath(os.path.join(cwd, o)) if o else os.path.join(os.path.dirname(srcp), stem(name) + '.hex')
+            p2 = os.path.normpath(os.path.join(cwd, e)) if e else os.path.join(os.path.dirname(srcp), stem(name) + '.eep.hex')
             stale = rng.random() < .5
             if stale:
                 for p in (p1, p2):
                     if os.path.isdir(os.path.dirname(p)) and not os.path.isdir(p) and p != srcp:
                         open(p, 'w').write('STALE ' + os.path.basename(p) + '\n' + 'x' * rng.choice([0, 5000, 200000]))   # often longer than what will be written: a writer that does not truncate shows
-            args = ['-s', name] + (['-o', o] if o else []) + (['-e', e] if e else []) + (['-v'] if verbose else [])
-            scen.append(dict(idx=idx, sk=sk, name=name, o=o, e=e, work=work, home=home, srcp=srcp, p1=p1, p2=p2, stale=stale, args=args, verbose=verbose))
+            sname = srcp if away else name
+            args = ['-s', sname] + (['-o', o] if o else []) + (['-e', e] if e else []) + (['-v'] if verbose else [])
+            scen.append(dict(idx=idx, sk=sk, name=sname, o=o, e=e, work=cwd, top=d, home=home, srcp=srcp, p1=p1, p2=p2, stale=stale, args=args, verbose=verbose, away=away))
+            dist['started in another directory with an absolute source name' if away else 'started next to the source'] += 1
             dist['source ' + sk] += 1; dist['-o ' + str(o)] += 1; dist['-e ' + str(e)] += 1
         # the library's answers (same include directory as the tool passes)
         lib = vlib.run_impl([('l%d' % s['idx'], 'F', '%s %s' % (vlib.hx(s['srcp']), vlib.hx(os.path.join(s['home'], '.config', 'avra-rs', 'includes')))) for s in scen])
@@ -117,14 +129,14 @@ def run(tier, seed, model_ok):
             model, rc, err = vlib.run_lines(vlib.DRIVER, mlines, mode=None)
         hexlines = []
         for s in scen:
-            before = snapshot(s['work'])
+            before = {**snapshot(os.path.join(s['top'], 'work')), **snapshot(os.path.join(s['top'], 'elsewhere'))}
             env = dict(os.environ, HOME=s['home']); env.pop('XDG_CONFIG_HOME', None)
             try:
                 p = subprocess.run([cli] + s['args'], cwd=s['work'], env=env, capture_output=True, timeout=120)
                 rc, out = p.returncode, p.stdout.decode('utf-8', 'replace') + p.stderr.decode('utf-8', 'replace')
             except subprocess.TimeoutExpired:
                 rc, out = 'timeout', ''
-            after = snapshot(s['work'])
+            after = {**snapshot(os.path.join(s['top'], 'work')), **snapshot(os.path.join(s['top'], 'elsewhere'))}
             changed = {p for p in after if after[p] != before.get(p)} | {p for p in before if p not in after}
             s.update(rc=rc, out=out, changed=changed, after=after, before=before)
             L = lib.get('l%d' % s['idx'], '')
